@@ -49,8 +49,10 @@ theorem C19_tie_ante_order : evmAnteOrder =
      "NewCanTransferDecorator", "NewEthGasConsumeDecorator", "NewEthIncrementSenderSequenceDecorator",
      "NewGasWantedDecorator", "NewEthEmitEventDecorator"] := by decide
 
-/-- the fact behind F-19a: the only comparison of the balance with value + fee is skipped in DeliverTx -/
-theorem C19_tie_account_verification_checktx_only : evmAccountVerificationCheckTxOnly = true := by decide
+/-- F-19a repair: EthAccountVerificationDecorator (balance ≥ gasLimit·feeCap + value) no longer returns early outside
+    CheckTx — the model's `totalCostOk` conjunct of `admissible` relies on it. Re-introducing the early return flips
+    this fact and breaks the theorem. -/
+theorem C19_tie_account_verification_every_mode : evmAccountVerificationCheckTxOnly = false := by decide
 
 theorem C19_tie_slices_regenerated : evmGasKernelsRegenerated = true := by decide
 
